@@ -105,16 +105,35 @@ func runC15(p *eng.Prog, r *eng.Report, tier string) {
 		}
 		c.r.Floor("C15.15", "returns of decoding errors in the ibb handlers", n, 2)
 	}
-	// C15.17 a session id that is in use cannot be opened again: in handleOpen
-	// the registration of the new stream is dominated by "the sid is not in
-	// the routing table" (an unconditional addStream replaces a live stream)
+	// C15.17 a session id that is in use cannot be opened again, and a stream
+	// the peer was told about is routable: in handleOpen the acceptance
+	// (iq.Result), the hand-over of the new stream to the listener and the
+	// withdrawal of its route all lie behind the edge on which addStream
+	// reported that it registered the stream under a free id (F120: an
+	// unconditional registration replaces a live stream; F129: a registration
+	// after the answer lets a local Open take the id the peer was promised).
+	// That addStream stores only behind a miss of the key is C15.20.
 	if f := c.fn("C15.17", "ibb", "handleOpen"); f != nil {
+		succ := []string{"ibb.Handler.addStream[*](*)"}
+		c.r.Floor("C15.17", "registrations in handleOpen", len(f.Calls("ibb.Handler.addStream")), 1)
 		n := 0
-		for _, cl := range f.Calls("ibb.Handler.addStream") {
+		for _, cl := range f.Calls("stanza.IQ.Result") {
 			n++
-			c.domAny("C15.17", f, cl, "stream registered for a free session id only", []string{"!commaok(p0.streams[*])", "!commaok(*.streams[*])"})
+			c.domAny("C15.17", f, cl, "open request accepted", succ)
 		}
-		c.r.Floor("C15.17", "registrations in handleOpen", n, 1)
+		c.r.Floor("C15.17", "acceptances in handleOpen", n, 1)
+		n = 0
+		for _, op := range chanOps(f) {
+			if op.kind != "send" {
+				continue
+			}
+			n++
+			c.domAny("C15.17", f, op.node, "stream handed to the listener", succ)
+		}
+		c.r.Floor("C15.17", "hand-overs in handleOpen", n, 2)
+		for _, cl := range f.Calls("ibb.Handler.rmStream") {
+			c.domAny("C15.17", f, cl, "route withdrawn", succ)
+		}
 	}
 	// C15.16 zero or a negative read buffer limit means "unlimited" (documented,
 	// and what handlePayload's size test implements): SetReadBuffer raises a
